@@ -150,6 +150,11 @@ impl FixtureDatabase {
                     .remove_if(&fixture_name, |_, defs| defs.is_empty());
             }
         }
+
+        // Definitions changed (were removed): invalidate the version-keyed caches
+        // (cycle cache, available-fixtures cache, imported-fixtures cache). Without this
+        // an edit that only removes definitions leaves them serving the old answers.
+        self.invalidate_cycle_cache();
     }
 
     /// Remove usages from the usage_by_fixture reverse index for a specific file.
